@@ -591,7 +591,7 @@ func (p *parser) parseFuncLabel() (string, error) {
 	} else {
 		p.next()
 	}
-	for p.isOp(".") || p.isOp("$") {
+	for p.isOp(".") || p.isOp("$") || p.isOp("#") {
 		p.next()
 		p.next()
 	}
